@@ -648,3 +648,269 @@ class C15(PropDef):
         if case.startswith("SWEEP"):
             return _oracle.c01_oracle(case, impl)
         return None
+
+
+CTOR_BLOB = {  # name: (fixed blob length, variable tail?)
+    "meminfo": (8, None), "bootdev": (12, None), "apm": (20, None), "efi32": (4, None), "efi64": (8, None), "ih32": (4, None),
+    "ih64": (8, None), "loadbase": (4, None), "efibs": (0, None), "end": (0, None), "rsdp1": (20, None), "rsdp2": (33, None),
+    "vbe": (776, None), "elf": (12, 1), "network": (0, 1), "efimmap": (8, 1), "smbios": (8, 1), "mmap": (0, 24),
+    "h_address": (18, None), "h_console": (6, None), "h_end": (0, None), "h_entry": (6, None), "h_efi32": (6, None),
+    "h_efi64": (6, None), "h_fb": (14, None), "h_modalign": (2, None), "h_efibs": (2, None), "h_reloc": (18, None),
+    "h_inforeq": (2, 4), "efidescs": (0, 40),
+}
+
+
+def rand_utf8(rng, n):
+    alphabet = ["a", "b", "Z", " ", "0", "-", "/", "é", "ß", "€", "😀", "\u0001", "~"]
+    return "".join(rng.choice(alphabet) for _ in range(n)).encode("utf-8")
+
+
+@register
+class C07(PropDef):
+    id = "C07"
+    rule = ("CTOR: every public tag constructor of both crates (34) on boundary (all-zero, all-ones) and random argument "
+            "blobs (each argument byte random = independently marked), variable parts of every length 0..17 (every padding "
+            "residue) and some longer, strings incl. multi-byte UTF-8 and a trailing NUL, module end <= start, EFI descriptor "
+            "size 0; observed: type, size, bytes[..size], size_of_val, align_of, as_bytes(), accessor read-back. "
+            "Non-trivial = distinct cases where the constructor returns.")
+    assumptions = ["padding bytes behind the declared size are not compared (uninitialised in stack-built tags)",
+                   "enum-typed constructor arguments (flags, console flags, preference, memory model) range over their declared values"]
+    trivial_prefixes = ("panic",)
+
+    def configs(self, tier):
+        return ["dev", "release"]
+
+    def string_ctor_cases(self, rng, tier):
+        cases = []
+        for name, pre in (("cmdline", 0), ("loader", 0), ("module", 8)):
+            for n in list(range(0, 18)) + [31, 32, 33, 100]:
+                for _ in range(2 if tier == "quick" else 8):
+                    s = rand_utf8(rng, n)
+                    if rng.random() < 0.15:
+                        s += b"\0"
+                    p = b""
+                    if pre:
+                        a = rng.getrandbits(31)
+                        p = u32(a) + u32(a + rng.randrange(1, 1 << 20))
+                    cases.append("CTOR %s %s" % (name, hx(p + s)))
+        cases.append("CTOR module " + hx(u32(5) + u32(5) + b"x"))
+        cases.append("CTOR module " + hx(u32(6) + u32(5) + b"x"))
+        cases.append("CTOR module " + hx(u32(0xFFFFFFFE) + u32(0xFFFFFFFF)))
+        return cases
+
+    def gen(self, tier, rng):
+        cases = self.string_ctor_cases(rng, tier)
+        reps = 6 if tier == "quick" else 40
+        for name, (fixed, var) in CTOR_BLOB.items():
+            tails = [0] if var is None else list(range(0, 18)) + [24, 40, 47, 48, 64, 100]
+            for tl in tails:
+                n = fixed + (tl * var if var and var > 1 else tl)
+                for k in range(reps if var is None else 2):
+                    if k == 0:
+                        b = b"\0" * n
+                    elif k == 1:
+                        b = b"\xff" * n
+                    else:
+                        b = rbytes(rng, n)
+                    if name == "efimmap" and k != 0 and len(b) >= 4 and b[:4] == b"\0\0\0\0":
+                        b = b"\x28" + b[1:]
+                    cases.append("CTOR %s %s" % (name, hx(b)))
+        # framebuffer: the three types x colour-info lengths
+        for ty in (0, 1, 2, 3, 255):
+            for extra in ([0, 2, 3, 5, 8, 11, 14, 32] if ty == 0 else [6] if ty == 1 else [0]):
+                for _ in range(3):
+                    b = bytearray(rbytes(rng, 24 + extra))
+                    b[21] = ty
+                    cases.append("CTOR fb %s" % hx(bytes(b)))
+        return cases
+
+    def oracle(self, case, impl, config):
+        if not case.startswith("CTOR"):
+            return None
+        try:
+            return _oracle.c07_oracle(case, impl)
+        except Exception as e:
+            return "oracle could not parse the observation: %r" % (e,)
+
+
+def partitions(content, rng, k):
+    """split content into k slices at random cut points (slices may be empty)"""
+    cuts = sorted(rng.randrange(0, len(content) + 1) for _ in range(max(0, k - 1)))
+    out = []
+    prev = 0
+    for c in cuts + [len(content)]:
+        out.append(content[prev:c])
+        prev = c
+    return out if k > 0 else []
+
+
+@register
+class C16(PropDef):
+    id = "C16"
+    rule = ("BOXED: new_boxed::<DynSizedStructure<H>> for H in {TagHeader, HeaderTagHeader, DummyTestHeader} with content of "
+            "every total length 0..24 split into 0..4 slices (all cut points for short contents, random ones otherwise; empty "
+            "slices included), header size field pre-set to 0 / garbage; a tracking global allocator records the (size, align) "
+            "of the allocation and of every deallocation of the object. CLONE: clone_dyn on every dynamically sized tag kind of "
+            "both crates x every content length 0..17 (every padding residue). Non-trivial = distinct cases that do not panic.")
+    assumptions = ["`freed exactly once` is observed by the tracking allocator (Box semantics are not modelled)"]
+    trivial_prefixes = ("panic",)
+
+    def gen(self, tier, rng):
+        import itertools
+        cases = []
+        for kind, hdr in (("tag", u32(7) + u32(0)), ("tag", u32(0xFFFFFFFF) + u32(999)), ("dummy", u32(42) + u32(0)), ("ht", u16(1) + u16(1) + u32(0)), ("ht", u16(5) + u16(0) + u32(77))):
+            for total in range(0, 25 if tier == "quick" else 65):
+                content = rbytes(rng, total)
+                cases.append("BOXED %s %s %s" % (kind, hx(hdr), hx(content) if total else "-"))
+                if total <= 5:
+                    for k in (2, 3):
+                        for cuts in itertools.combinations_with_replacement(range(total + 1), k - 1):
+                            parts = [content[a:b] for a, b in zip((0,) + cuts, cuts + (total,))]
+                            cases.append("BOXED %s %s %s" % (kind, hx(hdr), ",".join(p.hex() for p in parts) or "-"))
+                for k in (0, 2, 3, 4):
+                    parts = partitions(content, rng, k) if k else []
+                    if k == 0 and total:
+                        continue
+                    cases.append("BOXED %s %s %s" % (kind, hx(hdr), ",".join(p.hex() for p in parts) or "-"))
+        fixed = {"generic": (0x1337, 8), "cmdline": (1, 8), "loader": (2, 8), "module": (3, 16), "efimmap": (17, 16), "elf": (9, 20),
+                 "smbios": (13, 16), "fb": (8, 32), "network": (16, 8)}
+        for kind, (typ, fx) in fixed.items():
+            for n in range(0, 18 if tier == "quick" else 40):
+                body = rbytes(rng, fx - 8 + n)
+                cases.append("CLONE %s %s" % (kind, hx(_mbi.tag(typ, body, rng=rng))))
+        for n in range(0, 6):
+            cases.append("CLONE mmap %s" % hx(_mbi.tag(6, u32(24) + u32(0) + rbytes(rng, 24 * n), rng=rng)))
+        for n in range(0, 10):
+            for kind in ("hgeneric", "inforeq"):
+                body = rbytes(rng, 4 * n)
+                img = u16(1) + u16(rng.randrange(2)) + u32(8 + len(body)) + body
+                cases.append("CLONE %s %s" % (kind, hx(pad8(img, rng))))
+        for n in (1, 2, 3, 5, 6, 7):
+            body = rbytes(rng, n)
+            img = u16(rng.randrange(11)) + u16(0) + u32(8 + n) + body
+            cases.append("CLONE hgeneric %s" % hx(pad8(img, rng)))
+        return cases
+
+    def oracle(self, case, impl, config):
+        try:
+            return _oracle.c16_oracle(case, impl)
+        except Exception as e:
+            return "oracle could not parse the observation: %r" % (e,)
+
+
+def mbi_op(rng, slot):
+    """one builder op `<slot>:<blob>` with valid arguments"""
+    if slot in ("cmdline", "loader"):
+        return "%s:%s" % (slot, hx(rand_utf8(rng, rng.randrange(0, 12))))
+    if slot == "module":
+        a = rng.getrandbits(31)
+        return "module:%s" % hx(u32(a) + u32(a + rng.randrange(1, 1 << 20)) + rand_utf8(rng, rng.randrange(0, 10)))
+    if slot == "custom":
+        return "custom:%s" % hx(u32(rng.choice([22, 0x1337, 0xFFFFFFFF, rng.getrandbits(32) | 64])) + rbytes(rng, rng.randrange(0, 20)))
+    if slot == "fb":
+        ty = rng.choice([0, 1, 2])
+        extra = {0: rng.choice([0, 2, 5, 8, 11]), 1: 6, 2: 0}[ty]
+        b = bytearray(rbytes(rng, 24 + extra))
+        b[21] = ty
+        return "fb:%s" % hx(bytes(b))
+    fixed, var = CTOR_BLOB[slot]
+    n = fixed + (rng.randrange(0, 4) * var if var and var > 1 else (rng.randrange(0, 20) if var else 0))
+    b = bytearray(rbytes(rng, n))
+    if slot == "efimmap" and b[:4] == b"\0\0\0\0":
+        b[0] = 40
+    if slot == "vbe":
+        b = bytearray(b"\0" * 776)
+        b[0:8] = rbytes(rng, 8)
+        b[8:14] = rbytes(rng, 6)
+        b[536:538] = rbytes(rng, 2)
+        b[545] = rng.getrandbits(8)
+    return "%s:%s" % (slot, hx(bytes(b)))
+
+
+MBI_SLOTS = ["cmdline", "loader", "module", "meminfo", "bootdev", "mmap", "vbe", "fb", "elf", "apm", "efi32", "efi64", "smbios",
+             "rsdp1", "rsdp2", "network", "efimmap", "efibs", "ih32", "ih64", "loadbase", "custom"]
+HDR_SLOTS = ["h_inforeq", "h_address", "h_entry", "h_console", "h_fb", "h_modalign", "h_efibs", "h_efi32", "h_efi64", "h_reloc"]
+
+
+@register
+class C06(PropDef):
+    id = "C06"
+    rule = ("BUILD: builder call sequences through the real constructors and builder methods: the empty builder, every slot "
+            "alone, every pair of slots (both orders), 4096 random subsets in random call order (thorough: all 2^22 subsets by "
+            "mask with one fixed image per slot), repeated calls on single slots (last wins) and on repeatable slots (modules, "
+            "SMBIOS, custom: call order), custom tags with non-custom type numbers (must be rejected); contents of every length "
+            "residue. Observed: length, declared total, alignment, load result, walk with each tag's bytes up to its size, final "
+            "8 bytes. Non-trivial = distinct cases that build.")
+    assumptions = ["the order in which DIFFERENT kinds appear is not fixed by the property: the oracle compares per-kind sequences",
+                   "bytes between a tag's size and its 8-byte boundary are not compared (uninitialised for stack-built tags)"]
+    trivial_prefixes = ("panic",)
+
+    def gen(self, tier, rng):
+        cases = ["BUILD -"]
+        small = [s for s in MBI_SLOTS if s != "vbe"]
+        for s in MBI_SLOTS:
+            for _ in range(3):
+                cases.append("BUILD " + mbi_op(rng, s))
+        for a in small:
+            for b in small:
+                cases.append("BUILD %s,%s" % (mbi_op(rng, a), mbi_op(rng, b)))
+        n = 4096 if tier == "quick" else 0
+        for _ in range(n):
+            k = rng.randrange(0, 12)
+            slots = [rng.choice(small) for _ in range(k)]
+            cases.append("BUILD " + (",".join(mbi_op(rng, s) for s in slots) or "-"))
+        for _ in range(200):
+            slots = [rng.choice(["module", "smbios", "custom", "cmdline", "meminfo"]) for _ in range(rng.randrange(2, 9))]
+            cases.append("BUILD " + ",".join(mbi_op(rng, s) for s in slots))
+        for _ in range(20):
+            cases.append("BUILD " + ",".join(mbi_op(rng, s) for s in rng.sample(MBI_SLOTS, len(MBI_SLOTS))))
+        for ty in (0, 1, 21):
+            cases.append("BUILD custom:%s" % hx(u32(ty) + b"\x01\x02"))
+        if tier == "thorough":
+            fixed_ops = {s: mbi_op(rng, s) for s in small}
+            for mask in range(1 << len(small)):
+                ops = [fixed_ops[s] for i, s in enumerate(small) if mask >> i & 1]
+                cases.append("BUILD " + (",".join(ops) or "-"))
+        return cases
+
+    def oracle(self, case, impl, config):
+        try:
+            return _oracle.c06_oracle(case, impl)
+        except Exception as e:
+            return "oracle could not parse the observation: %r" % (e,)
+
+
+def hdr_op(rng, slot):
+    fixed, var = CTOR_BLOB[slot]
+    n = fixed + (rng.randrange(0, 9) * 4 if var else 0)
+    return "%s:%s" % (slot, hx(rbytes(rng, n)))
+
+
+@register
+class C12(PropDef):
+    id = "C12"
+    blocks_exhaustive = False
+    rule = ("HBUILD: ALL 2^10 subsets of the ten header-builder slots x both architectures (always exhaustive), each with "
+            "random tag contents, plus random call orders, repeated calls (last wins) and information-request lists of every "
+            "length 0..8. Observed: length, 16 header bytes, alignment, load result, tag walk with bytes, final 8 bytes. "
+            "Non-trivial = distinct cases that build.")
+    trivial_prefixes = ("panic",)
+
+    def gen(self, tier, rng):
+        cases = []
+        for arch in (0, 4):
+            for mask in range(1 << len(HDR_SLOTS)):
+                ops = [hdr_op(rng, s) for i, s in enumerate(HDR_SLOTS) if mask >> i & 1]
+                cases.append("HBUILD %d %s" % (arch, ",".join(ops) or "-"))
+            for _ in range(200):
+                slots = [rng.choice(HDR_SLOTS) for _ in range(rng.randrange(0, 14))]
+                cases.append("HBUILD %d %s" % (arch, ",".join(hdr_op(rng, s) for s in slots) or "-"))
+            for n in range(0, 9):
+                cases.append("HBUILD %d h_inforeq:%s" % (arch, hx(u16(rng.randrange(2)) + rbytes(rng, 4 * n))))
+        return cases
+
+    def oracle(self, case, impl, config):
+        try:
+            return _oracle.c12_oracle(case, impl)
+        except Exception as e:
+            return "oracle could not parse the observation: %r" % (e,)
